@@ -369,13 +369,59 @@ func runC17(r *ev.Run) {
 		}
 		go2("Flush", func(i int) error { return s.Flush() })
 		go2("TriggerCompaction", func(i int) error { s.TriggerCompaction(); return fmt.Errorf("(no result)") })
+		// 1..4 goroutines call Close at the same moment: exactly one may report success, none may panic
+		closers := 1 + rng.IntN(4)
+		spin := rng.IntN(50)
 		closeErr := make(chan error, 1)
+		closeStart := make(chan struct{})
+		closeRes := make(chan string, closers)
+		for c := 0; c < closers; c++ {
+			go func() {
+				defer func() {
+					if p := recover(); p != nil {
+						closeRes <- fmt.Sprintf("PANIC: %v", p)
+					}
+				}()
+				<-closeStart
+				if err := s.Close(); err != nil {
+					closeRes <- "err: " + err.Error()
+				} else {
+					closeRes <- "nil"
+				}
+			}()
+		}
 		go func() {
-			for i := 0; i < rng.IntN(50); i++ {
+			for i := 0; i < spin; i++ {
 				runtimeGosched()
 			}
-			closeErr <- s.Close()
+			close(closeStart)
+			nils, errs := 0, 0
+			var firstErr string
+			for c := 0; c < closers; c++ {
+				select {
+				case res := <-closeRes:
+					switch {
+					case res == "nil":
+						nils++
+					case strings.HasPrefix(res, "PANIC"):
+						closeErr <- fmt.Errorf("one of %d concurrent Close calls panicked: %s", closers, strings.TrimPrefix(res, "PANIC: "))
+						return
+					default:
+						errs++
+						firstErr = res
+					}
+				case <-time.After(60 * time.Second):
+					closeErr <- fmt.Errorf("one of %d concurrent Close calls did not return within 60 s", closers)
+					return
+				}
+			}
+			if nils != 1 {
+				closeErr <- fmt.Errorf("%d concurrent Close calls: %d returned nil, %d an error (%s); exactly one must succeed", closers, nils, errs, firstErr)
+				return
+			}
+			closeErr <- nil
 		}()
+		r.Count(fmt.Sprintf("races:concurrent-closers=%d", closers), 1)
 		doneAll := make(chan struct{})
 		go func() { wg2.Wait(); close(doneAll) }()
 		select {
@@ -389,7 +435,7 @@ func runC17(r *ev.Run) {
 			if err != nil {
 				rep("own.close-error", fmt.Sprintf("Close racing with operations failed: %v", err))
 			}
-		case <-time.After(60 * time.Second):
+		case <-time.After(70 * time.Second):
 			rep("own.close-hangs", "Close racing with operations did not return within 60 s")
 			return
 		}
@@ -420,6 +466,123 @@ func runC17(r *ev.Run) {
 		r.Count("races:ops-vs-close", 1)
 		r.Eval(true, ev.Digest("race", N, M, ci))
 	})
+
+	// ------------------------------------------------------------------ Close while a compaction is in flight
+	// The compaction is held at a point inside it; Close runs beside it and, once it has returned, the next owner opens
+	// the directory. From that moment nothing the OLD handle started may change the directory any more.
+	ctl := newHookCtl()
+	ctl.install()
+	compPoints := []string{"compact.begin", "crash:compact.create.hybrid", "crash:compact.writeto-done", "crash:compact.written", "crash:compact.added", "crash:compact.removed", "crash:delete.before"}
+	ncc := r.Pick(14, 140)
+	r.Cases("close-vs-compaction", ncc, func(ci int, rng *rand.Rand) {
+		dir, err := os.MkdirTemp("", "verif-c17c-*")
+		if err != nil {
+			panic(err)
+		}
+		defer os.RemoveAll(dir)
+		point := compPoints[ci%len(compPoints)]
+		rep := func(sig, what string) { r.ViolationAt("close-vs-compaction", ci, sig, "point="+point+": "+what, nil) }
+		pc := p
+		pc.CompactionThreshold = 2
+		s, err := pc.open(dir)
+		if err != nil {
+			rep("own.open-fails-on-free-directory", err.Error())
+			return
+		}
+		ids := newIDGen(rng)
+		ids.min = 1 << 24
+		for seg := 0; seg < 2+rng.IntN(3); seg++ {
+			for i := 0; i < 1+rng.IntN(3); i++ {
+				d := genStoreDoc(rng, pc, ids.next(), "c")
+				if err := s.AddWithID(d.ID, d.Vec, d.Text, d.Meta); err != nil {
+					rep("own.add-error", err.Error())
+				}
+			}
+			if err := s.Flush(); err != nil {
+				rep("own.flush-error", err.Error())
+			}
+		}
+		var mu sync.Mutex
+		var closeErr error
+		var stateAtHandover string
+		var next *comet.PersistentHybridIndex
+		var besideDone chan struct{}
+		inTime := false
+		ctl.resetTrace(false)
+		endsBefore := ctl.count("compact.end")
+		ctl.setTarget(point, 1, func(args []any) {
+			it, bd := runBeside(func() {
+				err := s.Close()
+				var n2 *comet.PersistentHybridIndex
+				if err == nil {
+					n2, _ = pc.open(dir)
+				}
+				st := dirState(dir)
+				mu.Lock()
+				closeErr, next, stateAtHandover = err, n2, st
+				mu.Unlock()
+			}, 200*time.Millisecond)
+			mu.Lock()
+			inTime, besideDone = it, bd
+			mu.Unlock()
+		})
+		s.TriggerCompaction()
+		deadline := time.After(60 * time.Second)
+		for !ctl.fired() {
+			select {
+			case <-deadline:
+				ctl.clearTarget()
+				s.Close()
+				r.Inconclusive("compaction point not reached: " + point)
+				r.Count("close-vs-compaction:point-not-reached:"+point, 1)
+				return
+			case <-time.After(time.Millisecond):
+			}
+		}
+		ctl.clearTarget()
+		// wait for Close (and the hand-over) to finish
+		var bd chan struct{}
+		for bd == nil {
+			time.Sleep(time.Millisecond)
+			mu.Lock()
+			bd = besideDone
+			mu.Unlock()
+		}
+		select {
+		case <-bd:
+		case <-time.After(60 * time.Second):
+			rep("own.close-hangs", "Close beside an in-flight compaction did not return within 60 s after the compaction resumed")
+			return
+		}
+		// let whatever the old handle still runs come to rest: until its compaction has ended, at most 2 s
+		for i := 0; i < 2000 && ctl.count("compact.end") == endsBefore; i++ {
+			time.Sleep(time.Millisecond)
+		}
+		time.Sleep(5 * time.Millisecond)
+		mu.Lock()
+		cerr, n2, st, inTime := closeErr, next, stateAtHandover, inTime
+		mu.Unlock()
+		if cerr != nil {
+			rep("own.close-error", fmt.Sprintf("Close beside an in-flight compaction failed: %v", cerr))
+			return
+		}
+		if n2 == nil {
+			rep("own.open-fails-on-free-directory", "Open right after a successful Close (compaction in flight on the old handle) failed")
+			return
+		}
+		if now := dirState(dir); now != st {
+			rep("own.closed-handle-modifies-directory", fmt.Sprintf("the directory changed after Close had returned and the next owner had opened it (a compaction started by the closed handle was still running; Close returned while it was paused: %v)\n at hand-over: %s\n now:          %s", inTime, st, now))
+		}
+		n2.Close()
+		if inTime {
+			r.Count("close-vs-compaction:close-returned-while-compaction-paused", 1)
+		} else {
+			r.Count("close-vs-compaction:close-waited-for-compaction", 1)
+		}
+		r.Count("close-vs-compaction:"+point, 1)
+		r.Eval(true, ev.Digest("cvc", point, ci))
+	})
+	ctl.uninstall()
 
 	// ------------------------------------------------------------------ another process
 	helper := os.Getenv("VERIF_HELPER")
